@@ -66,6 +66,16 @@ def gen(ctx, deep):
                     if a[0] != "clear":  # clear_policy leaves the store behind: the reload would not be of a mirrored store
                         jobs.append((cfg, [a] + window + [b]))
                     jobs.append((cfg, [a, ("setrm",), b]))
+        # a reload that fails while the links are being rebuilt (a malformed grouping line after a new, valid one) or while
+        # the adapter is delivering: the policy that stays in place must still be the one the links reflect
+        short = G[0][:-1]
+        newg = [r for r in G if r not in inits[2]["g"]]
+        cfg = ec.Config(shape, adapter=True, watcher=None, initial=inits[2])
+        for bad_g in ([newg[0], short], inits[2]["g"] + [newg[-1], short], [short]):
+            for after in ([], [("add", "g", newg[0])], [("remove", "g", inits[2]["g"][0])] if inits[2]["g"] else []):
+                jobs.append((cfg, [("setstore", {"p": P, "g": bad_g, "g2": G2}), ("load", None)] + after))
+        for k in (0, 1, 2, 3):
+            jobs.append((cfg, [("setstore", {"p": P, "g": G, "g2": G2}), ("load", k), ("add", "g", newg[0])]))
         n = 1500 if not deep else 8000
         ops_r = ops + [("setrm",)]
         for _ in range(n):
